@@ -30,6 +30,7 @@ type MOp struct {
 	ID int    `json:"id"`
 	L  int    `json:"l,omitempty"`
 	T  int    `json:"t,omitempty"`
+	WT *int   `json:"wt,omitempty"` // WithWriteTime, see WOp.WT
 }
 
 type MSub struct {
@@ -74,6 +75,59 @@ type MaskScenario struct {
 	Init map[string]int `json:"init"` // id -> level (target = level+1)
 	Ops  []MOp          `json:"ops"`
 	Subs []MSub         `json:"subs"`
+	// Eq: the resource's equivalence ("" = none): "e" WithNoDuplicates, "l" / "t" WithEquivalence comparing only
+	// level / only target (an absent message is equivalent to an absent one only). Clock: see scriptClock.
+	Eq    string `json:"eq,omitempty"`
+	Clock string `json:"clock,omitempty"`
+}
+
+// eqPair: the equivalences on plain pairs (the oracle's own copy)
+func eqPair(name string, a, b pair) bool {
+	switch name {
+	case "l":
+		return a.L == b.L
+	case "t":
+		return a.T == b.T
+	}
+	return a == b
+}
+
+// relViews: the same ids, and equivalent values (equal ones without an equivalence)
+func relViews(name string, view, want map[string]pair) bool {
+	if len(view) != len(want) {
+		return false
+	}
+	for id, w := range want {
+		v, ok := view[id]
+		if !ok || !eqPair(name, v, w) {
+			return false
+		}
+	}
+	return true
+}
+
+func resourceOptions(eq, clock string) []resource.Option {
+	var opts []resource.Option
+	switch eq {
+	case "e":
+		opts = append(opts, resource.WithNoDuplicates())
+	case "l", "t":
+		opts = append(opts, resource.WithEquivalence(resource.ComparerFunc(func(x, y proto.Message) bool {
+			px, okx := pairOf(x)
+			py, oky := pairOf(y)
+			if !okx || !oky {
+				return okx == oky
+			}
+			if eq == "l" {
+				return px.L == py.L
+			}
+			return px.T == py.T
+		})))
+	}
+	if clock != "" {
+		opts = append(opts, resource.WithClock(&scriptClock{kind: clock}))
+	}
+	return opts
 }
 
 func (sc MaskScenario) key() string { return fmt.Sprintf("%+v", sc) }
@@ -154,13 +208,13 @@ func runMasks(sc MaskScenario) (*verdict, *maskResult) {
 	var coll *resource.Collection
 	var val *resource.Value
 	if sc.Res == "value" {
-		var opts []resource.Option
+		opts := resourceOptions(sc.Eq, sc.Clock)
 		if l, ok := sc.Init["0"]; ok {
 			opts = append(opts, resource.WithInitialValue(bright(l, l+1)))
 		}
 		val = resource.NewValue(opts...)
 	} else {
-		var opts []resource.Option
+		opts := resourceOptions(sc.Eq, sc.Clock)
 		for k, l := range sc.Init {
 			opts = append(opts, resource.WithInitialRecord("i"+k, bright(l, l+1)))
 		}
@@ -214,13 +268,17 @@ func runMasks(sc MaskScenario) (*verdict, *maskResult) {
 		}
 	}
 	for n, op := range sc.Ops {
+		var wopts []resource.WriteOption
+		if op.WT != nil {
+			wopts = append(wopts, resource.WithWriteTime(wtTime(*op.WT)))
+		}
 		switch {
 		case op.K == "d":
-			coll.Delete("i" + strconv.Itoa(op.ID))
+			coll.Delete("i"+strconv.Itoa(op.ID), wopts...)
 		case sc.Res == "value":
-			val.Set(bright(op.L, op.T))
+			val.Set(bright(op.L, op.T), wopts...)
 		default:
-			coll.Update("i"+strconv.Itoa(op.ID), bright(op.L, op.T), resource.WithCreateIfAbsent())
+			coll.Update("i"+strconv.Itoa(op.ID), bright(op.L, op.T), append(wopts, resource.WithCreateIfAbsent())...)
 		}
 		for i, s := range sc.Subs {
 			if cons[i] == nil && s.Late == n+1 {
@@ -260,6 +318,9 @@ func runMasks(sc MaskScenario) (*verdict, *maskResult) {
 			site = "include-masks-single-writer"
 		}
 	}
+	if sc.Eq != "" {
+		site = "equivalence-" + site
+	}
 	for i, c := range cons {
 		want := map[string]pair{}
 		for id, p := range contents {
@@ -277,7 +338,7 @@ func runMasks(sc MaskScenario) (*verdict, *maskResult) {
 				return &verdict{"C03/coll/" + site + "/sentinel-not-delivered", fmt.Sprintf("subscriber %d (%+v) never received the sentinel", i, sc.Subs[i]), "sentinel", "none"}, nil
 			}
 			c.mu.Lock()
-			ok = showPairs(c.view) == showPairs(want)
+			ok = relViews(sc.Eq, c.view, want)
 			c.mu.Unlock()
 		} else {
 			// every write stores fresh values in both fields: the subscriber is drained when its last event is
@@ -285,7 +346,7 @@ func runMasks(sc MaskScenario) (*verdict, *maskResult) {
 			deadline := time.Now().Add(limit)
 			for {
 				c.mu.Lock()
-				ok = showPairs(c.view) == showPairs(want)
+				ok = relViews(sc.Eq, c.view, want)
 				c.mu.Unlock()
 				if ok || time.Now().After(deadline) {
 					break
@@ -301,7 +362,7 @@ func runMasks(sc MaskScenario) (*verdict, *maskResult) {
 				fmt.Sprintf("single writer, %d subscribers with different read masks / include functions: subscriber %d (%+v) ends with a view that is not the projection under its own mask of the items of Get/List its include function accepts", len(sc.Subs), i, sc.Subs[i]),
 				"view = " + showPairs(want), "view = " + showPairs(c.view) + " from events " + strings.Join(c.events, ";")}, nil
 		}
-		if sc.Res == "coll" {
+		if sc.Res == "coll" && (sc.Eq == "" || sc.Eq == "e") {
 			// "exactly what List returns": the real List with the subscriber's own options (items sorted by id, the
 			// marker item last) against the view
 			lopts := []resource.ReadOption{}
@@ -410,7 +471,11 @@ func (sc MaskScenario) driverLine() string {
 		if s.Incl != "" && sc.Res != "value" {
 			incl = s.Incl
 		}
-		subs = append(subs, "0"+b01(!s.BP)+maskLetter(s.Mask)+incl)
+		eq := sc.Eq
+		if sc.Res == "value" {
+			eq = strings.ToUpper(eq)
+		}
+		subs = append(subs, "0"+b01(!s.BP)+maskLetter(s.Mask)+incl+eq)
 	}
 	var sched []string
 	done := make([]bool, len(sc.Subs))
@@ -509,6 +574,37 @@ func includeMaskWitnesses() []MaskScenario {
 	return out
 }
 
+// eqWitnesses: resources with an equivalence (no duplicates; only level compared; only target compared) x every read
+// mask x {backpressure, lossy}, next to an unmasked and a late subscriber: writes of an equal body, of a body differing
+// in one field, delete and re-creation with the SAME body (also of an item of the seed), changes back and forth; and on
+// Collections with an include function: items leaving the included set and coming back with the same masked body.
+func eqWitnesses() []MaskScenario {
+	var out []MaskScenario
+	cops := []MOp{{K: "s", ID: 0, L: 2, T: 2}, {K: "s", ID: 0, L: 2, T: 2}, {K: "s", ID: 0, L: 2, T: 3}, {K: "d", ID: 0},
+		{K: "s", ID: 0, L: 2, T: 3}, {K: "d", ID: 2}, {K: "s", ID: 1, L: 1, T: 1}, {K: "s", ID: 2, L: 4, T: 5}, {K: "d", ID: 1},
+		{K: "s", ID: 1, L: 1, T: 1}, {K: "s", ID: 0, L: 3, T: 3}, {K: "s", ID: 0, L: 2, T: 3}}
+	vops := []MOp{{K: "s", ID: 0, L: 2, T: 2}, {K: "s", ID: 0, L: 2, T: 2}, {K: "s", ID: 0, L: 2, T: 3}, {K: "s", ID: 0, L: 3, T: 3},
+		{K: "s", ID: 0, L: 2, T: 3}, {K: "s", ID: 0, L: 2, T: 2}, {K: "s", ID: 0, L: 2, T: 3}}
+	iops := []MOp{{K: "s", ID: 0, L: 2, T: 4}, {K: "s", ID: 0, L: 3, T: 4}, {K: "s", ID: 0, L: 2, T: 4}, {K: "s", ID: 0, L: 2, T: 5},
+		{K: "s", ID: 0, L: 2, T: 4}, {K: "s", ID: 0, L: 6, T: 4}, {K: "s", ID: 0, L: 2, T: 4}, {K: "s", ID: 0, L: 6, T: 4},
+		{K: "s", ID: 0, L: 2, T: 7}, {K: "s", ID: 0, L: 2, T: 4}, {K: "s", ID: 0, L: 6, T: 4}}
+	for _, bp := range []bool{true, false} {
+		for _, eq := range []string{"e", "l", "t"} {
+			for _, mask := range maskChoices {
+				subs := []MSub{{Mask: mask, BP: bp}, {Mask: nil, BP: bp}, {Mask: mask, BP: bp, Late: 4}}
+				out = append(out,
+					MaskScenario{Res: "coll", Init: map[string]int{"2": 4}, Ops: cops, Subs: subs, Eq: eq},
+					MaskScenario{Res: "value", Init: map[string]int{"0": 2}, Ops: vops, Subs: subs, Eq: eq})
+				for _, incl := range inclChoices[1:] {
+					out = append(out, MaskScenario{Res: "coll", Init: map[string]int{}, Ops: iops, Eq: eq,
+						Subs: []MSub{{Mask: mask, BP: bp, Incl: incl}, {Mask: mask, BP: !bp, Incl: incl, Late: 3}}})
+				}
+			}
+		}
+	}
+	return out
+}
+
 func genMasks(rng *rand.Rand) MaskScenario {
 	sc := MaskScenario{Res: "coll", Init: map[string]int{}}
 	if rng.Intn(3) == 0 {
@@ -538,6 +634,22 @@ func genMasks(rng *rand.Rand) MaskScenario {
 			sc.Ops[i].L, sc.Ops[i].T = rng.Intn(10), rng.Intn(10)
 		}
 	}
+	if rng.Intn(3) == 0 {
+		// an equivalence on the resource and bodies from a small alphabet, so that equal and equivalent bodies recur
+		sc.Eq = []string{"e", "l", "t"}[rng.Intn(3)]
+		for k := range sc.Init {
+			sc.Init[k] = rng.Intn(2)
+		}
+		for i := range sc.Ops {
+			sc.Ops[i].L, sc.Ops[i].T = rng.Intn(3), rng.Intn(3)
+		}
+	}
+	if rng.Intn(2) == 0 {
+		sc.Clock = clockKinds[rng.Intn(len(clockKinds))]
+		for i := range sc.Ops {
+			sc.Ops[i].WT = genWT(rng)
+		}
+	}
 	ns := 2 + rng.Intn(2)
 	for i := 0; i < ns; i++ {
 		s := MSub{Mask: maskChoices[rng.Intn(len(maskChoices))], BP: rng.Intn(2) == 0}
@@ -554,16 +666,18 @@ func genMasks(rng *rand.Rand) MaskScenario {
 
 func masksMonitor(f lib.Flags, res *lib.Result, rng *rand.Rand) {
 	mon := res.Monitor("converges-read-masks",
-		"single writer, 2-3 concurrent subscribers of one Value / Collection of two-field messages with DIFFERENT read masks (none, each field, both), backpressure on/off, subscribing before or between writes; each subscriber's folded view at quiescence vs the projection of Get/List under its OWN mask (projection computed independently); all ordered pairs of distinct masks x {Value, Collection} x {backpressure, lossy} + random; on Collections also WithInclude with a function of a closed family reading the STORED item (level even, target even, level >= 5, id even and target < 5) combined with every mask (in particular masks hiding the field the function reads): scripted sequences moving items into / inside / out of the included set by ADD, UPDATE and REMOVE for every (mask, function) pair + random; the view must be the masked image of the items the function accepts AND equal what List returns with the same mask and function; deterministic, so any difference is a violation")
+		"single writer, 2-3 concurrent subscribers of one Value / Collection of two-field messages with DIFFERENT read masks (none, each field, both), backpressure on/off, subscribing before or between writes; each subscriber's folded view at quiescence vs the projection of Get/List under its OWN mask (projection computed independently); all ordered pairs of distinct masks x {Value, Collection} x {backpressure, lossy} + random; on Collections also WithInclude with a function of a closed family reading the STORED item (level even, target even, level >= 5, id even and target < 5) combined with every mask (in particular masks hiding the field the function reads): scripted sequences moving items into / inside / out of the included set by ADD, UPDATE and REMOVE for every (mask, function) pair + random; the view must be the masked image of the items the function accepts AND equal what List returns with the same mask and function; resources created with an equivalence (WithNoDuplicates; WithEquivalence comparing only level / only target, an absent message equivalent to an absent one only) x every mask x {backpressure, lossy} x {Value, Collection}, with and without include functions: equal rewrites, changes of one field, delete and re-creation with the SAME body (also of a seeded item), items leaving the included set and returning with the same masked body, bodies from a three-letter alphabet at random: the view must hold the same items as Get/List and equivalent bodies (equal ones WithNoDuplicates); write times equal / decreasing / zero and scripted clocks on half of the random scenarios; deterministic, so any difference is a violation")
 	all := append(maskWitnesses(), includeMaskWitnesses()...)
+	all = append(all, eqWitnesses()...)
 	for i := 0; i < f.N(200, 3000); i++ {
 		all = append(all, genMasks(rng))
 	}
 	tie := res.Tie("masks-model", "K1",
-		"the read-mask scenarios as schedules of the model (single writer; every delivery immediately received; subscriber i carries its mask as a projection and its include function; the model's view is the fold of what its forwarder emits: include on the stored values, then the mask): store and every subscriber's view at quiescence vs run(model); non-trivial = subscribers with different masks")
+		"the read-mask scenarios as schedules of the model (single writer; every delivery immediately received; subscriber i carries its mask as a projection and its include function; the model's view is the fold of what its forwarder emits: include on the stored values, then the mask): store and every subscriber's view at quiescence vs run(model), the model applying the resource's equivalence as Collection.Pull (own old vs new value) / Value.Pull (value sent last vs new value) do; under an equivalence coarser than equality the views of lossy and of Value subscribers are compared by equivalence class; non-trivial = subscribers with different masks")
 	var lines, codes []string
 	var inputs []any
 	var nontriv []bool
+	var scs []MaskScenario
 	for _, sc := range all {
 		distinct := false
 		for i := range sc.Subs {
@@ -573,7 +687,7 @@ func masksMonitor(f lib.Flags, res *lib.Result, rng *rand.Rand) {
 		}
 		mon.Eval(sc.key(), distinct, nil)
 		mon.Count(sc.Res)
-		in := map[string]any{"mode": "masks", "res": sc.Res, "init": sc.Init, "ops": sc.Ops, "subs": sc.Subs}
+		in := map[string]any{"mode": "masks", "res": sc.Res, "init": sc.Init, "ops": sc.Ops, "subs": sc.Subs, "eq": sc.Eq, "clock": sc.Clock}
 		v, mr := runMasks(sc)
 		if v != nil {
 			mon.Violate(v.sig, v.what, in, v.expected, v.observed)
@@ -587,6 +701,7 @@ func masksMonitor(f lib.Flags, res *lib.Result, rng *rand.Rand) {
 			codes = append(codes, code)
 			inputs = append(inputs, in)
 			nontriv = append(nontriv, distinct)
+			scs = append(scs, sc)
 		}
 	}
 	drv, err := lib.StartDriver(f.Driver)
@@ -601,8 +716,47 @@ func masksMonitor(f lib.Flags, res *lib.Result, rng *rand.Rand) {
 		return
 	}
 	for i := range lines {
-		tie.Record(lines[i], nontriv[i], inputs[i], stripModel(answers[i], func(int) bool { return true }), codes[i])
+		tie.Record(lines[i], nontriv[i], inputs[i], classViews(stripModel(answers[i], func(int) bool { return true }), scs[i]), classViews(codes[i], scs[i]))
 	}
+}
+
+// classViews: under an equivalence coarser than equality a LOSSY subscriber's view is determined only up to the
+// equivalence (which of two equivalent bodies it holds depends on what its merge stage happened to combine): the views
+// of lossy subscribers are compared by equivalence class (the compared field only); everything else exactly.
+func classViews(ans string, sc MaskScenario) string {
+	if sc.Eq != "l" && sc.Eq != "t" {
+		return ans
+	}
+	parts := strings.Split(ans, "|")
+	for k, p := range parts {
+		if !strings.HasPrefix(p, "S") {
+			continue
+		}
+		eq := strings.IndexByte(p, '=')
+		i, _ := strconv.Atoi(p[1:eq])
+		if i >= len(sc.Subs) || (sc.Subs[i].BP && sc.Res != "value") {
+			// (a Value subscriber counts as drained as soon as its view is equivalent to the final value: by class too)
+			continue
+		}
+		f := strings.SplitN(p[eq+1:], ":", 2)
+		if len(f) != 2 || f[1] == "" {
+			continue
+		}
+		var items []string
+		for _, kv := range strings.Split(f[1], ",") {
+			x := strings.SplitN(kv, "=", 2)
+			lt := strings.SplitN(x[1], ".", 2)
+			if sc.Eq == "l" {
+				items = append(items, x[0]+"="+lt[0]+".~")
+			} else if len(lt) == 2 {
+				items = append(items, x[0]+"=~."+lt[1])
+			} else {
+				items = append(items, x[0]+"=~.0")
+			}
+		}
+		parts[k] = p[:eq+1] + f[0] + ":" + strings.Join(items, ",")
+	}
+	return strings.Join(parts, "|")
 }
 
 // ---------------------------------------------------------------------------------------------
